@@ -6,5 +6,6 @@ PROPERTY_MODULES.update({
     "C07": "contracts.C07_asymptotics",
     "C08": "contracts.C08_hypotest",
     "C09": "contracts.C09_upper_limits",
+    "C17": "contracts.C17_patchset",
     "C19": "contracts.C19_cli",
 })
